@@ -104,6 +104,21 @@ def run(ctx, repo):
         # every return of discipline_sort_key is a 3-tuple
         if fname == 'discipline_sort_key':
             check_sort_key_shape(ctx, P, utils, mod.functions[qual[0]], consts)
+    # field codes must find their own entry: the "unknown, sorts last" fallback of the lookup helper is for non-codes
+    if utils.has_func('_field_sort_order'):
+        FIELD = rx.inter(EC, rx.union(P.dfa('PAT_THROWS'), P.dfa('PAT_JUMPS')))
+        it = Interp(P, utils.tree, '_field_sort_order', FIELD, consts=consts)
+        nf = report_interp(ctx, UTILS, '_field_sort_order', it)
+        for v, inp, st in it.ret:
+            is_index = isinstance(st.value, ast.Call) and call_name(st.value) == 'index'
+            if not is_index:
+                w = P.wit(inp)
+                if w is not None:
+                    ctx.finding('R6', '%s::_field_sort_order::fallback index for an accepted field code' % UTILS, UTILS, st.lineno,
+                                'the accepted field code %r finds none of its prefixes in FIELD_SORT_ORDER and gets the "unknown, last" index '
+                                '(%s): field events are then not in the conventional HJ PV LJ TJ SP DT HT JT order' % (w, unparse(st)), w)
+        if not any(f.construct.endswith('fallback index for an accepted field code') for f in ctx.findings):
+            ctx.ok('R6', 'every accepted throws / jumps code finds a listed prefix in FIELD_SORT_ORDER')
     ctx.note('consumers interpreted over L(PAT_EVENT_CODE)', analysed)
     ctx.floor('conversion/lookup/None sinks in the interpreted consumers', n_sinks, 8)
 
